@@ -199,6 +199,7 @@ Fixpoint explore (n : nat) (c : cfg) (s : hst) : bool :=
           (if is_fin_typ i && negb (v13 s) then rsec s else true) &&
           (if Z.eqb (hs s') DONE then is_fin_true i && tents_eqb (snap s') (tr s) else explore n' c s')
       | OIgnore => match i with ICcs => v13 s | _ => false end
+      | OWarn _ => false
       | ORefuse => false
       end) alphabet
   end.
@@ -348,13 +349,14 @@ Qed.
 Lemma done_step s i s' o :
   step s i = (s', o) -> err s = false -> hs s = DONE ->
   (fatal_out o = true /\ err s' = true) \/
-  (o = OIgnore /\ s' = s /\ i = ICcs /\ v13 s = true) \/
+  ((o = OIgnore /\ i = ICcs /\ v13 s = true \/
+    o = OWarn c_SSL_ALERT_NO_RENEGOTIATION /\ v13 s = false /\ exists m, i = IHs m /\ m_typ m = (if server s then CH else HREQ)) /\ s' = s) \/
   (exists m, i = IHs m /\ m_typ m = NST /\ v13 s = true /\ server s = false /\ s' = accept s m false /\ o = OAccept false).
 Proof.
   intros Hs He Hh. destruct s as [sv vv h rs ws er re ca pk dh tk st lc up hr ea tkk gc ac trr sn]. simpl in He, Hh. subst.
   destruct i as [|[t b]].
   - unfold step in Hs. cbn [err v13] in Hs. destruct vv.
-    + inversion Hs; subst. right; left. repeat split; reflexivity.
+    + inversion Hs; subst. right; left. split; [left; repeat split; reflexivity | reflexivity].
     + unfold ccs12 in Hs. cbn in Hs. destruct pk; cbn in Hs; inversion Hs; subst; left; split; reflexivity.
   - unfold step in Hs. cbn [err v13] in Hs. destruct vv.
     + (* TLS 1.3 *)
@@ -397,8 +399,19 @@ Proof.
         replace (eqb DONE CSTAT) with false in Hs by reflexivity.
         replace (eqb DONE SKE) with false in Hs by reflexivity.
         replace (eqb DONE DONE) with true in Hs by reflexivity.
-        destruct sv, (eqb t CH), (eqb t HREQ), (eqb t CREQ), (eqb t NST), (eqb t SHD), pk, dh; cbn in Hs;
-          inversion Hs; subst; left; split; reflexivity.
+        destruct sv.
+        -- destruct (eqb t CH) eqn:E1.
+           ++ cbn in Hs. inversion Hs; subst. right; left. split; [|reflexivity]. right.
+              split; [reflexivity|]. split; [reflexivity|]. exists (mkmsg t b). split; [reflexivity|].
+              unfold eqb in E1. apply Z.eqb_eq in E1. exact E1.
+           ++ destruct (eqb t HREQ), (eqb t CREQ), (eqb t NST), (eqb t SHD), pk, dh; cbn in Hs;
+                inversion Hs; subst; left; split; reflexivity.
+        -- destruct (eqb t HREQ) eqn:E1.
+           ++ cbn in Hs. inversion Hs; subst. right; left. split; [|reflexivity]. right.
+              split; [reflexivity|]. split; [reflexivity|]. exists (mkmsg t b). split; [reflexivity|].
+              unfold eqb in E1. apply Z.eqb_eq in E1. exact E1.
+           ++ destruct (eqb t CH), (eqb t CREQ), (eqb t NST), (eqb t SHD), pk, dh; cbn in Hs;
+                inversion Hs; subst; left; split; reflexivity.
 Qed.
 
 (* ================================================================== one step from an explored state *)
@@ -452,7 +465,7 @@ Proof.
   assert (Ha : In i alphabet) by (apply in_alphabet; destruct i; [exact I | exact Hin]).
   destruct n as [|n]; [discriminate|]. cbn [explore] in Hx.
   rewrite forallb_forall in Hx. specialize (Hx i Ha). rewrite Hs in Hx.
-  destruct o as [d | | r | |].
+  destruct o as [d | | r | w | |].
   - left; split; [reflexivity | exact Hx].
   - left; split; [reflexivity | exact Hx].
   - right; right. exists r.
@@ -464,6 +477,7 @@ Proof.
     + destruct (Z.eqb (hs s') DONE) eqn:D.
       * left. apply Z.eqb_eq in D. apply andb_prop in KE. destruct KE as [F T]. apply tents_eqb_eq in T. auto.
       * right. apply Z.eqb_neq in D. split; [exact KA|]. split; [exact D|]. split; [exact KB|]. exists n. exact KE.
+  - discriminate.
   - right; left. destruct i as [|m]; [|discriminate].
     unfold step in Hs. rewrite He in Hs. rewrite Hx in Hs. inversion Hs; subst. auto.
   - discriminate.
@@ -523,8 +537,10 @@ Proof.
   split; [|split].
   - apply Flow13; auto. apply Forall_app. split; [assumption | constructor; [reflexivity | constructor]].
   - unfold cauth_consistent. intro C. congruence.
-  - rewrite (msgs_of_app Sv nsts [KHs NST]). rewrite app5. rewrite received_app. f_equal.
-    unfold received. cbn. rewrite S. reflexivity.
+  - rewrite (msgs_of_app Sv nsts [KHs NST]). rewrite app5.
+    match goal with |- _ = received md (?F ++ ?X) => rewrite (received_app md F X) end.
+    replace (received md (msgs_of Sv [KHs NST])) with [KHs NST] by (unfold received; cbn; rewrite S; reflexivity).
+    reflexivity.
 Qed.
 
 Lemma has_kind_app k l e : has_kind k l = true -> has_kind k (l ++ e) = true.
@@ -536,28 +552,31 @@ Proof.
   unfold noskipb. rewrite !forallb_forall. intros H k Hk. apply has_kind_app. apply H. exact Hk.
 Qed.
 
+Lemma accept_nohash s m :
+  err (accept s m false) = err s /\ hs (accept s m false) = hs s /\ v13 (accept s m false) = v13 s /\
+  server (accept s m false) = server s /\ acc (accept s m false) = acc s ++ [MHs m] /\
+  snap (accept s m false) = snap s /\ tr (accept s m false) = tr s.
+Proof. destruct s. cbn. repeat split; reflexivity. Qed.
+
 Lemma stat_step c s i : stat c s -> stat c (fst (step s i)).
 Proof.
   intros [He | He Hd Hi | Hl].
   - unfold step. rewrite He. apply StDead. exact He.
   - destruct (step s i) as [s' o] eqn:Hs. cbn [fst].
-    destruct (done_step s i s' o Hs He Hd) as [[_ E] | [[_ [E _]] | [m [Hi' [Hn [V [S [E _]]]]]]]].
+    destruct (done_step s i s' o Hs He Hd) as [[_ E] | [[_ E] | [m [Hi' [Hn [V [S [E _]]]]]]]].
     + apply StDead. exact E.
     + subst. apply StDone; assumption.
     + subst s'. destruct Hi as [md [N [L [V' [S' K]]]]].
-      apply StDone.
-      * destruct s; reflexivity.
-      * destruct s; cbn in *; assumption.
-      * exists md.
-        assert (A : acc (accept s m false) = acc s ++ [MHs m]) by (destruct s; reflexivity).
-        rewrite A.
-        assert (Hh : is_hello (c_server c) m = false).
-        { unfold is_hello. rewrite Hn. destruct (c_server c); reflexivity. }
-        rewrite (negotiated_app_other c (acc s) m Hh). split; [exact N|].
-        split.
-        { rewrite kinds_app. cbn [kinds map]. rewrite Hn. apply legal_nst; congruence. }
-        split; [destruct s; cbn in *; congruence|]. split; [destruct s; cbn in *; congruence|].
-        apply noskipb_app. exact K.
+      destruct (accept_nohash s m) as [A1 [A2 [A3 [A4 [A5 _]]]]].
+      apply StDone; [congruence | congruence |].
+      exists md. rewrite A5.
+      assert (Hh : is_hello (c_server c) m = false).
+      { unfold is_hello. rewrite Hn. destruct (c_server c); reflexivity. }
+      rewrite (negotiated_app_other c (acc s) m Hh). split; [exact N|].
+      split.
+      { rewrite kinds_app. cbn [kinds map]. rewrite Hn. apply legal_nst; congruence. }
+      split; [congruence|]. split; [congruence|].
+      apply noskipb_app. exact K.
   - destruct (step s i) as [s' o] eqn:Hs. cbn [fst].
     destruct (live_step c s i s' o Hl Hs) as [[_ E] | [[_ [E _]] | [r [_ [E [G [_ [_ [[D _] | L]]]]]]]]].
     + apply StDead. exact E.
@@ -587,3 +606,234 @@ Qed.
 
 Lemma reach c is : In c all_cfgs -> stat c (fst (run (init c) is)).
 Proof. intro H. apply stat_run. apply StLive. apply init_live. exact H. Qed.
+
+(* ================================================================== the theorems of C06 *)
+Theorem only_legal : forall c is, In c all_cfgs ->
+  let s := fst (run (init c) is) in
+  err s = false -> hs s = DONE ->
+  exists md, negotiated c (acc s) = Some md /\ legal md (kinds (acc s)).
+Proof.
+  intros c is Hc s He Hd. subst s. destruct (reach c is Hc) as [E | _ _ [md [N [L _]]] | [_ [D _]]].
+  - congruence.
+  - exists md. split; assumption.
+  - congruence.
+Qed.
+
+Theorem deviation_fatal : forall c is i, In c all_cfgs ->
+  let s := fst (run (init c) is) in
+  err s = false ->
+  (v13 s = true -> i <> ICcs) ->                       (* RFC 8446 section 5: a TLS 1.3 receiver drops ChangeCipherSpec *)
+  ~ prefix_ok c (acc s ++ [item_of i]) ->
+  exists s' o, step s i = (s', o) /\
+    ((fatal_out o = true /\ err s' = true) \/
+     (* a renegotiation request on a completed session: no_renegotiation warning (RFC 5246 7.2.2), nothing changes *)
+     (o = OWarn c_SSL_ALERT_NO_RENEGOTIATION /\ s' = s /\ hs s = DONE)).
+Proof.
+  intros c is i Hc s He Hccs Hn. subst s. pose proof (reach c is Hc) as R.
+  remember (fst (run (init c) is)) as s eqn:Es. clear Es.
+  destruct (step s i) as [s' o] eqn:Hs. exists s', o. split; [reflexivity|].
+  destruct R as [E | _ D Hi | Hl].
+  - congruence.
+  - destruct (done_step s i s' o Hs He D) as [F | [[[[_ [Hi' V]] | [Ow _]] Es] | [m [Hi' [Hm [V [S [E _]]]]]]]].
+    + left. exact F.
+    + exfalso. exact (Hccs V Hi').
+    + right. auto.
+    + exfalso. apply Hn. subst i. cbn [item_of].
+      destruct Hi as [md [N [L [V' [S' K]]]]].
+      assert (Hh : is_hello (c_server c) m = false).
+      { unfold is_hello. rewrite Hm. destruct (c_server c); reflexivity. }
+      exists [], md. rewrite app_nil_r. split.
+      * rewrite (negotiated_app_other c (acc s) m Hh). exact N.
+      * rewrite kinds_app. cbn [kinds map]. rewrite Hm. apply legal_nst; congruence.
+  - destruct (live_step c s i s' o Hl Hs) as [F | [[_ [_ [Hi' V]]] | [r [_ [_ [G [A _]]]]]]].
+    + left. exact F.
+    + exfalso. exact (Hccs V Hi').
+    + exfalso. apply Hn. rewrite <- A. apply prefix_okb_sound.
+      unfold good in G. apply andb_prop in G. destruct G as [G _]. apply andb_prop in G. destruct G as [G _]. exact G.
+Qed.
+
+Lemma has_kind_in k l : has_kind k l = true -> In k (kinds l).
+Proof.
+  unfold has_kind. intro H. apply existsb_exists in H. destruct H as [x [Hx E]]. apply mk_eqb_eq in E. subst. exact Hx.
+Qed.
+
+(* no completion without the messages the property names: [required] lists them per negotiated mode *)
+Theorem no_skip : forall c is, In c all_cfgs ->
+  let s := fst (run (init c) is) in
+  err s = false -> hs s = DONE ->
+  exists md, negotiated c (acc s) = Some md /\ forall k, In k (required md) -> In k (kinds (acc s)).
+Proof.
+  intros c is Hc s He Hd. subst s. destruct (reach c is Hc) as [E | _ _ [md [N [_ [_ [_ K]]]]] | [_ [D _]]].
+  - congruence.
+  - exists md. split; [exact N|]. intros k Hk. apply has_kind_in.
+    unfold noskipb in K. rewrite forallb_forall in K. apply K. exact Hk.
+  - congruence.
+Qed.
+
+(* TLS <= 1.2: a Finished message is never accepted while the read side is unprotected, i.e. before ChangeCipherSpec *)
+Theorem no_finished_before_ccs : forall c is m, In c all_cfgs ->
+  let s := fst (run (init c) is) in
+  err s = false -> v13 s = false -> rsec s = false -> m_typ m = FIN ->
+  exists s' o, step s (IHs m) = (s', o) /\ fatal_out o = true /\ err s' = true.
+Proof.
+  intros c is m Hc s He V R Hm. subst s. pose proof (reach c is Hc) as Q.
+  remember (fst (run (init c) is)) as s eqn:Es. clear Es.
+  destruct (step s (IHs m)) as [s' o] eqn:Hs. exists s', o. split; [reflexivity|].
+  destruct Q as [E | _ D Hi | Hl].
+  - congruence.
+  - destruct (done_step s (IHs m) s' o Hs He D) as [F | [[[[_ [Hi' _]] | [_ [_ [m0 [Hi0 Hm0]]]]] _] | [m' [_ [_ [V' _]]]]]].
+    + exact F.
+    + discriminate.
+    + exfalso. inversion Hi0; subst m0. rewrite Hm in Hm0. destruct (server s); discriminate.
+    + congruence.
+  - destruct (live_step c s (IHs m) s' o Hl Hs) as [F | [[_ [_ [Hi' _]]] | [r [_ [_ [_ [_ [Hf _]]]]]]]].
+    + exact F.
+    + discriminate.
+    + exfalso. assert (rsec s = true).
+      { apply Hf; [|exact V]. cbn [is_fin_typ]. rewrite Hm. reflexivity. }
+      congruence.
+Qed.
+
+(* ---- Finished binds to the receiver's own transcript *)
+Section Runs.
+Context {X : Type} (f : hst -> X -> input).
+Fixpoint grun (s : hst) (xs : list X) : hst :=
+  match xs with [] => s | x :: r => grun (fst (step s (f s x))) r end.
+
+Lemma grun_dead : forall xs s, err s = true -> err (grun s xs) = true.
+Proof.
+  induction xs as [|x r IH]; intros s H; cbn [grun]; [exact H|]. apply IH. unfold step. rewrite H. exact H.
+Qed.
+
+Lemma grun_done : forall xs s, err s = false -> hs s = DONE -> err (grun s xs) = false ->
+  snap (grun s xs) = snap s /\ hs (grun s xs) = DONE.
+Proof.
+  induction xs as [|x r IH]; intros s He Hd Hf; cbn [grun] in *; [split; auto|].
+  destruct (step s (f s x)) as [s' o] eqn:Hs. cbn [fst] in *.
+  destruct (done_step s (f s x) s' o Hs He Hd) as [[_ E] | [[_ E] | [m [_ [_ [_ [_ [E _]]]]]]]].
+  - rewrite (grun_dead r s' E) in Hf. discriminate.
+  - subst s'. apply IH; assumption.
+  - subst s'. destruct (accept_nohash s m) as [A1 [A2 [_ [_ [_ [A6 _]]]]]].
+    destruct (IH (accept s m false)) as [I1 I2]; [congruence | congruence | exact Hf |].
+    split; [congruence | exact I2].
+Qed.
+
+Lemma binds_gen c : forall xs s0, live c s0 ->
+  err (grun s0 xs) = false -> hs (grun s0 xs) = DONE ->
+  exists xs1 x xs2, xs = xs1 ++ x :: xs2 /\ live c (grun s0 xs1) /\ is_fin_true (f (grun s0 xs1) x) = true /\
+                    snap (grun s0 xs) = tr (grun s0 xs1).
+Proof.
+  induction xs as [|x r IH]; intros s0 Hl He Hd; cbn [grun] in *.
+  - destruct Hl as [_ [D _]]. contradiction.
+  - destruct (step s0 (f s0 x)) as [s1 o] eqn:Hs. cbn [fst] in *.
+    destruct (live_step c s0 (f s0 x) s1 o Hl Hs) as [[_ E] | [[_ [E _]] | [q [_ [E [G [_ [_ [[D [F T]] | L]]]]]]]]].
+    + rewrite (grun_dead r s1 E) in He. discriminate.
+    + subst s1. destruct (IH s0 Hl He Hd) as [xs1 [y [xs2 [Hx [H1 [H2 H3]]]]]].
+      exists (x :: xs1), y, xs2. cbn [grun app]. rewrite Hs. cbn [fst]. subst r.
+      split; [reflexivity | split; [exact H1 | split; [exact H2 | exact H3]]].
+    + exists [], x, r. cbn [grun app]. split; [reflexivity|]. split; [exact Hl|]. split; [exact F|].
+      destruct (grun_done r s1 E D He) as [S1 _]. congruence.
+    + destruct (IH s1 L He Hd) as [xs1 [y [xs2 [Hx [H1 [H2 H3]]]]]].
+      exists (x :: xs1), y, xs2. cbn [grun app]. rewrite Hs. cbn [fst]. subst r.
+      split; [reflexivity | split; [exact H1 | split; [exact H2 | exact H3]]].
+Qed.
+End Runs.
+
+Lemma grun_id : forall is s, grun (fun _ i => i) s is = fst (run s is).
+Proof.
+  induction is as [|i r IH]; intro s; cbn [grun run]; [reflexivity|].
+  rewrite IH. destruct (step s i) as [s1 o]. cbn [fst]. destruct (run s1 r). reflexivity.
+Qed.
+
+Lemma is_fin_true_inv i : is_fin_true i = true -> i = IHs (mkmsg FIN (BFin true)).
+Proof.
+  destruct i as [|[t b]]; cbn; try discriminate. destruct b as [| | |[]|]; try discriminate.
+  intro H. apply Z.eqb_eq in H. subst. reflexivity.
+Qed.
+
+(* completion requires a Finished whose verify_data matched, and the value it was compared with was computed from
+   the transcript as it stood BEFORE that Finished was hashed *)
+Theorem finished_binds : forall c is, In c all_cfgs ->
+  let s := fst (run (init c) is) in
+  err s = false -> hs s = DONE ->
+  exists is1 is2, is = is1 ++ IHs (mkmsg FIN (BFin true)) :: is2 /\
+    let s1 := fst (run (init c) is1) in
+    err s1 = false /\ hs s1 <> DONE /\ snap s = tr s1.
+Proof.
+  intros c is Hc s He Hd. unfold s in *. rewrite <- grun_id in *.
+  destruct (binds_gen (fun _ i => i) c is (init c) (init_live c Hc) He Hd) as [xs1 [x [xs2 [Hx [[E1 [D1 _]] [F T]]]]]].
+  apply is_fin_true_inv in F. subst x. exists xs1, xs2. rewrite <- grun_id.
+  split; [exact Hx | split; [exact E1 | split; [exact D1 | exact T]]].
+Qed.
+
+(* the same with the comparison made explicit: the answer of a well-formed Finished is BY DEFINITION the oracle
+   [verify] applied to the receiver's transcript at that moment and to the verify_data the message carries *)
+Section Verify.
+Variable verify : list tent -> Z -> bool.
+Definition cinput := (input * Z)%type.         (* abstract input + the verify_data a Finished carries *)
+Definition conc (s : hst) (ci : cinput) : input :=
+  match ci with
+  | (IHs (mkmsg t (BFin _)), vd) => IHs (mkmsg t (BFin (verify (tr s) vd)))
+  | (i, _) => i
+  end.
+
+Theorem finished_binds_oracle : forall c cis, In c all_cfgs ->
+  let s := grun conc (init c) cis in
+  err s = false -> hs s = DONE ->
+  exists pre b vd post, cis = pre ++ (IHs (mkmsg FIN (BFin b)), vd) :: post /\
+    let s1 := grun conc (init c) pre in
+    hs s1 <> DONE /\ verify (tr s1) vd = true /\ snap s = tr s1.
+Proof.
+  intros c cis Hc s He Hd.
+  destruct (binds_gen conc c cis (init c) (init_live c Hc) He Hd) as [xs1 [[i vd] [xs2 [Hx [[E1 [D1 _]] [F T]]]]]].
+  apply is_fin_true_inv in F.
+  destruct i as [|[t b]]; [discriminate|]. destruct b as [| | |b|]; cbn [conc] in F; try discriminate.
+  inversion F as [[Ht Hv]]. subst t. exists xs1, b, vd, xs2. split; [exact Hx|]. split; [exact D1|]. split; [first [exact Hv | reflexivity] | exact T].
+Qed.
+End Verify.
+
+(* ================================================================== the hypotheses are satisfiable *)
+Definition hm (t : Z) (b : body) : input := IHs (mkmsg t b).
+Example legal_run_tls12_client_ecdhe_ticket :
+  let s := fst (run (init (Client false T_SENT_EMPTY))
+                 [hm SH (BHello12 false false true true false); hm CERT BPlain; hm SKE BPlain; hm CREQ BPlain; hm SHD BPlain;
+                  hm NST BPlain; ICcs; hm FIN (BFin true)]) in
+  hs s = DONE /\ err s = false /\ length (acc s) = 8%nat.
+Proof. vm_compute. repeat split; reflexivity. Qed.
+Example legal_run_tls12_server_cauth :
+  let s := fst (run (init (Server false true false))
+                 [hm CH (BHello12 false false true false false); hm CERT BPlain; hm CKE BPlain; hm CVFY BPlain; ICcs; hm FIN (BFin true)]) in
+  hs s = DONE /\ err s = false.
+Proof. vm_compute. repeat split; reflexivity. Qed.
+Example legal_run_tls13_client_hrr :
+  let s := fst (run (init (Client true T_INIT))
+                 [hm SH (BHello13 true false false); hm SH (BHello13 false false false); hm EE BPlain; hm CERT BPlain; hm CVFY BPlain;
+                  hm FIN (BFin true); hm NST BPlain; hm NST BPlain]) in
+  hs s = DONE /\ err s = false /\ length (acc s) = 8%nat.
+Proof. vm_compute. repeat split; reflexivity. Qed.
+Example legal_run_tls13_server_psk_early :
+  let s := fst (run (init (Server true true true)) [hm CH (BHello13 false true true); hm EOED BPlain; hm FIN (BFin true)]) in
+  hs s = DONE /\ err s = false.
+Proof. vm_compute. repeat split; reflexivity. Qed.
+Example fallback_tls13_client_to_tls12_resumed :
+  let s := fst (run (init (Client true T_INIT)) [hm SH (BHello12 true false true false false); ICcs; hm FIN (BFin true)]) in
+  hs s = DONE /\ err s = false /\ v13 s = false.
+Proof. vm_compute. repeat split; reflexivity. Qed.
+(* the deviations found on the implementation are refused by the model of the repaired code *)
+Example deviations_refused :
+  (* TLS 1.3 NewSessionTicket before the server Finished *)
+  err (fst (run (init (Client true T_INIT)) [hm SH (BHello13 false false false); hm EE BPlain; hm CERT BPlain; hm CVFY BPlain; hm NST BPlain])) = true /\
+  (* ClientHello to a client whose handshake is complete *)
+  err (fst (run (init (Client false T_INIT)) [hm SH (BHello12 true false true false false); ICcs; hm FIN (BFin true); hm CH (BHello12 false false true false false)])) = true /\
+  (* second ChangeCipherSpec *)
+  err (fst (run (init (Server false false false)) [hm CH (BHello12 false false true false false); hm CKE BPlain; ICcs; ICcs])) = true /\
+  (* ChangeCipherSpec although the promised NewSessionTicket has not arrived *)
+  err (fst (run (init (Client false T_SENT_EMPTY)) [hm SH (BHello12 false false false true false); hm CERT BPlain; hm SHD BPlain; ICcs])) = true /\
+  (* second HelloRetryRequest; TLS 1.2 ServerHello after a HelloRetryRequest *)
+  err (fst (run (init (Client true T_INIT)) [hm SH (BHello13 true false false); hm SH (BHello13 true false false)])) = true /\
+  err (fst (run (init (Client true T_INIT)) [hm SH (BHello13 true false false); hm SH (BHello12 false false true false false)])) = true /\
+  (* second ClientHello that still needs a HelloRetryRequest *)
+  err (fst (run (init (Server true false false)) [hm CH (BHello13 true false false); hm CH (BHello13 true false false)])) = true /\
+  (* second CertificateRequest *)
+  err (fst (run (init (Client false T_INIT)) [hm SH (BHello12 false false true false false); hm CERT BPlain; hm SKE BPlain; hm CREQ BPlain; hm CREQ BPlain])) = true.
+Proof. vm_compute. repeat split; reflexivity. Qed.
